@@ -14,7 +14,7 @@
    None (VNone) is allowed in int/float columns: dump writes the empty text for it, parse_int /
    parse_decimal return None for the empty text. *)
 From Coq Require Import List Arith ZArith NArith Bool Lia.
-From RxVerif Require Import Framing.Line Container.Csv Container.CsvProofs Container.IntText Container.IntTextProofs.
+From RxVerif Require Import Framing.Line Container.Csv Container.CsvProofs Container.IntText Container.IntTextProofs Container.FloatText Container.FloatTextProofs Container.FloatTextShortest.
 Import ListNotations.
 
 (* un-escaping inverts escaping, for every string *)
@@ -143,6 +143,69 @@ Print Assumptions C18_file_roundtrip_int_concrete.
 Example C18_int_text_examples :
   py_str_int 0 = [48]%Z /\ py_str_int (-1234567890) = [45;49;50;51;52;53;54;55;56;57;48]%Z
   /\ py_int_of [43;55]%Z = Some 7%Z /\ py_int_of [48;48;55]%Z = Some 7%Z /\ py_int_of [45]%Z = None /\ py_int_of [] = None.
+Proof. vm_compute. repeat split; reflexivity. Qed.
+
+(* ---------------------------------------------------------------------------------------------
+   the FLOAT half of the number layer made concrete (Container/FloatText.v): fl = canonical finite binary64 values
+   (sign, mantissa, exponent); py_str_float = CPython repr / str of a float (the shortest decimal that converts back,
+   found by searching 1..17 digits with exact integer arithmetic, formatted as repr does: scientific iff the decimal
+   exponent is below -4 or at least 16); py_float_of = float(text) on [sign] digits [. digits] [e|E [sign] digits] with
+   correct rounding (half to even).  Proved: the search succeeds on EVERY binary64 value (17 digits always suffice), hence
+   float(str x) = x for every canonical x; the printed text consists of digits . - + e.  The correspondence check
+   compares both functions with CPython on every float and every float text of every case (C18Corr.float_layer_ok).
+   With both layers concrete NO hypothesis about numbers remains in the round trips (okfl = the canonical values).
+   Outside the model: inf / nan, texts with whitespace / underscores / non-ASCII digits; not proved: that the text is the
+   SHORTEST one and CPython's tie-break among equally short ones (compared with CPython on every case).
+   --------------------------------------------------------------------------------------------- *)
+Theorem C18_float_text_roundtrip : forall x, fl_ok x -> py_float_of (py_str_float x) = Some x.
+Proof. exact py_float_roundtrip_all. Qed.
+Print Assumptions C18_float_text_roundtrip.
+Theorem C18_float_text_seventeen_digits_suffice : forall x, fl_ok x -> shortest_found x.
+Proof. exact shortest_found_all. Qed.
+Print Assumptions C18_float_text_seventeen_digits_suffice.
+Theorem C18_float_text_printed : forall p x, ~ float_char p -> printed_ok p (py_str_float x).
+Proof. exact py_float_printed. Qed.
+Print Assumptions C18_float_text_printed.
+Theorem C18_line_roundtrip_all_concrete : forall (p esc : Z),
+  p <> quote -> p <> esc -> esc <> quote ->
+  ~ float_char p ->
+  (forall b, ~ In p (str_bool b)) ->
+  forall (types : list ty) (row : list (value okfl)), Forall2 field_ok types row -> row <> [] ->
+  parse_line okfl py_int_of okfl_of [p] esc types (dump_line okfl py_str_int okfl_str [p] esc row) = Some row.
+Proof. exact csv_line_float_concrete. Qed.
+Print Assumptions C18_line_roundtrip_all_concrete.
+Theorem C18_file_roundtrip_all_concrete : forall (p esc : Z),
+  p <> quote -> p <> esc -> esc <> quote ->
+  ~ float_char p ->
+  (forall b, ~ In p (str_bool b)) ->
+  p <> newline -> esc <> newline ->
+  forall (types : list ty) (names : list (list Z)) (rows : list (list (value okfl))) (chunks : list (list Z)),
+  Forall text_no_nl names ->
+  Forall (fun row => Forall2 field_ok types row /\ row <> [] /\ Forall value_no_nl row) rows ->
+  concat chunks = concat (dump_lines okfl py_str_int okfl_str [p] esc [newline] names rows) ->
+  load_chunks okfl py_int_of okfl_of [p] esc types chunks = (rows, true).
+Proof. exact csv_file_float_concrete. Qed.
+Print Assumptions C18_file_roundtrip_all_concrete.
+Theorem C18_file_roundtrip_64k_all_concrete : forall (p esc : Z),
+  p <> quote -> p <> esc -> esc <> quote ->
+  ~ float_char p ->
+  (forall b, ~ In p (str_bool b)) ->
+  p <> newline -> esc <> newline ->
+  forall (types : list ty) (names : list (list Z)) (rows : list (list (value okfl))),
+  Forall text_no_nl names ->
+  Forall (fun row => Forall2 field_ok types row /\ row <> [] /\ Forall value_no_nl row) rows ->
+  load_file okfl py_int_of okfl_of [p] esc types
+    (concat (dump_lines okfl py_str_int okfl_str [p] esc [newline] names rows)) = (rows, true).
+Proof. exact csv_file_64k_float_concrete. Qed.
+Print Assumptions C18_file_roundtrip_64k_all_concrete.
+(* every canonical binary64 value is a member of okfl *)
+Theorem C18_okfl_is_every_canonical_float : forall x, fl_okb x = true -> okflb x = true.
+Proof. exact okflb_all. Qed.
+Print Assumptions C18_okfl_is_every_canonical_float.
+Example C18_float_text_examples :
+  py_str_float (mkfl false 7205759403792794 (-56)) = [48; 46; 49]%Z                       (* 0.1 *)
+  /\ py_str_float (mkfl true 6755399441055744 (-52)) = [45; 49; 46; 53]%Z                  (* -1.5 *)
+  /\ py_float_of [49; 101; 49; 54]%Z = Some (mkfl false 5000000000000000 1).               (* 1e16 *)
 Proof. vm_compute. repeat split; reflexivity. Qed.
 
 (* ---------------------------------------------------------------------------------------------
